@@ -78,6 +78,11 @@ func SelfTest(w *World, verifDir, tier string, seed uint64) int {
 		chk := CheckByID(id)
 		for i := 0; i < n; i++ {
 			sc := chk.Generate(gctx, NewRand(Mix(seed, "selftest"+id, uint64(i))), i)
+			if sc != nil && strings.Contains(sc.Strace, "when=") {
+				// strace counts `when=N` per thread and the Go runtime picks the thread: this fault kind is the one
+				// declared source of nondeterminism of the simulator (evidence from it is marked probabilistic)
+				continue
+			}
 			if sc != nil {
 				sc.Prop = id
 				items = append(items, item{id, sc})
@@ -141,7 +146,7 @@ func SelfTest(w *World, verifDir, tier string, seed uint64) int {
 					knownFM++
 					break
 				}
-				fmt.Printf("selftest: OBSERVABLE outcome differs between executions of one scenario (that is a C18 violation, see ./check C18): %s %v\n", items[i].id, items[i].sc.Argv)
+				fmt.Printf("selftest: OBSERVABLE outcome differs between executions of one scenario (that is a C18 violation, see ./check C18): %s %v\n  A: %q\n  B: %q\n  scenario: %s\n", items[i].id, items[i].sc.Argv, clip([]byte(rs[0].out), 600), clip([]byte(o.out), 600), clip(items[i].sc.JSON(), 1500))
 				bad++
 				break
 			}
